@@ -124,6 +124,18 @@ impl<R: Read> Reader<R> {
     pub fn where_am_i(&self) -> Location {
         self.location.clone()
     }
+
+    /// Where the input that was not yet used by a value starts: a pending look-ahead byte
+    /// that is not a white space was read but belongs to whatever comes next.
+    pub fn where_is_unused_input(&self) -> Location {
+        let mut location = self.location.clone();
+        if let Some(ch) = self.current_byte {
+            if !matches!(ch, b' ' | b'\n' | b'\t' | b'\r') && location.char_number > 1 {
+                location.char_number -= 1;
+            }
+        }
+        location
+    }
 }
 
 impl Display for Location {
